@@ -424,7 +424,7 @@ def _(tier, rng):
 
 
 # ------------------------------------------------------------------ XMLSchemaBase.decode: shaping of the yielded stream
-t = Target('schemas.XMLSchemaBase.decode', ['C04'], 'xmlschema/validators/schemas.py', 'XMLSchemaBase.decode',
+t = Target('schemas.XMLSchemaBase.decode', ['C04', 'C20'], 'xmlschema/validators/schemas.py', 'XMLSchemaBase.decode',
            note='with Y the sequence yielded by iter_decode(same arguments): strict raises the first error item of Y (and only then), otherwise the result is shaped from '
                 'ALL data items of Y in order (none -> None, one -> the item, several -> the list); lax returns (data, all error items of Y in order); the whole of Y is '
                 'consumed, so errors yielded after the data (the end-of-document reference checks) count',
@@ -503,7 +503,8 @@ def _(inp):
     import xmlschema
     from xmlschema.validators.exceptions import XMLSchemaValidationError
     s = _real_ctx()[0]
-    items = [XMLSchemaValidationError(s, 'x', f'err{i}') if c == 'e' else {'data': i} for i, c in enumerate(inp['stream'])]
+    # data items of every shape a decoded element can have: a dictionary, None (an empty element), a list (a list-typed element)
+    items = [XMLSchemaValidationError(s, 'x', f'err{i}') if c == 'e' else None if c == 'n' else [i, i] if c == 'l' else {'data': i} for i, c in enumerate(inp['stream'])]
     s.iter_decode = lambda *a, **k: iter(items)            # ghost sequence Y supplied to the REAL decode()
     try:
         try: got = s.decode('<a/>', validation=inp['validation']); raised = None
@@ -522,7 +523,7 @@ def _(inp):
 def _(tier, rng):
     import itertools
     for n in range(0, 4):
-        for stream in itertools.product('de', repeat=n):
+        for stream in itertools.product('denl', repeat=n):
             for v in ('strict', 'lax', 'skip'): yield dict(stream=''.join(stream), validation=v)
 
 
